@@ -300,6 +300,16 @@ def run(ctx):
                     inspect('make_unchecked', out.val, raw, fake_exp, si, before, convert=False)
             elif out.kind == 'converr' and S.post_init in (None, 'ok'):
                 ctx.violation('make_unchecked-stores-verbatim', 'main', i, {'class': S.brief(), 'args': short(raw, 200), 'outcome': out.brief()}, mech='make_unchecked-converted')
+            # a set-field record handed to from_dict_unchecked is copied: the caller's set stays the caller's
+            if not missing_required and expect_ok:
+                given = {f.name for f in supplied}
+                o = observe(cls.from_dict_unchecked, {f.name: getattr(next(iter(instances.values())), f.name) for f in init_fields} if instances else {}, set_fields=given)
+                if o.kind == 'value' and instances:
+                    ctx.count('record_ownership_checks')
+                    if o.val.__pane_set__ is given or set(o.val.__pane_set__) != given:
+                        ctx.violation('set-fields-exact', 'main', i, {'class': S.brief(), 'operation': 'from_dict_unchecked(set_fields=...)', 'given': short(sorted(given)),
+                                                                      'record': short(sorted(o.val.__pane_set__)), 'same_object': o.val.__pane_set__ is given},
+                                      mech='from_dict_unchecked:record-is-the-callers-set')
             # copy / deepcopy / replace / from_dict_unchecked run the hook once for the new instance
             src = next(iter(instances.values()), None)
             if src is not None and S.post_init == 'ok':
@@ -308,6 +318,13 @@ def run(ctx):
                                   ('from_dict_unchecked', lambda: cls.from_dict_unchecked({f.name: getattr(src, f.name) for f in init_fields}))):
                     del log[:]
                     o = observe(op)
+                    if o.kind == 'value' and cname in ('copy', 'deepcopy', 'replace'):
+                        # the new instance has a set-field record of its OWN (equal to the source's, never the same object)
+                        ctx.count('record_ownership_checks')
+                        if o.val.__pane_set__ is src.__pane_set__ or o.val.__pane_set__ != src.__pane_set__:
+                            ctx.violation('set-fields-exact', 'main', i, {'class': S.brief(), 'operation': cname, 'source_record': short(sorted(src.__pane_set__)),
+                                                                          'new_record': short(sorted(o.val.__pane_set__)),
+                                                                          'same_object': o.val.__pane_set__ is src.__pane_set__}, mech=f"{cname}:record-shared-or-different")
                     if o.kind == 'value':
                         ctx.count('post_init_instances_checked')
                         n = sum(1 for x in log if x == id(o.val))
